@@ -56,7 +56,17 @@ Inductive case :=
 | CServe (kind : N) (limit delay ust : Z) (impl_status elapsed hits : Z)
 (* the dial timeout in action, for each kind of target: [limit] in ns; [connect] = a lower bound of what
    connecting costs on loopback (1000 ns is never met); status seen by the client *)
-| CDial (kind : N) (limit connect ust : Z) (impl_status : Z).
+| CDial (kind : N) (limit connect ust : Z) (impl_status : Z)
+(* a whole exchange through the real HTTPProxy behind a real listener, for each kind of target, with the
+   transports built from ResponseHeaderTimeout = [limit] and the proxy given the same configuration, as
+   in main() (all times in ms): the client uploads its request body over [x_upload], the upstream
+   answers its header [x_delay] after it has the request and sends its body in chunks ([cl]: with a
+   Content-Length, so that the proxy's listener may hold the header back until the body is there).
+   impl = status seen by the client (-1: none), ms until the header and until the end of the body,
+   requests the upstream received, the body bytes the client received, whether the body ended properly
+   (no read error), whether the upstream received every byte the client sent *)
+| CBody (kind : N) (limit : Z) (cl : bool) (x : exchange)
+        (impl_status head elapsed hits : Z) (body : str) (complete req_whole : bool).
 
 Definition built_from (s : limits) (impl : option transport) : bool :=
   match impl with
@@ -108,4 +118,20 @@ Definition check_case (c : case) : N :=
       (* spec side from the declarative [dial_hits], not from [dial] *)
       let hits := (limit <? 0) || ((0 <? limit) && (limit <=? connect)) in
       verdict (st =? m) (if hits then st =? 504 else st =? ust) None true
+  | CBody _ limit cl x st head elapsed hits body complete req_whole =>
+      let m := exchange_of_proxy limit x in
+      let same := (st =? a_status m)
+                  && (a_head_at m - early <=? head) && (head <=? (if cl then a_done_at m else a_head_at m) + late)
+                  && (a_done_at m - early <=? elapsed) && (elapsed <=? a_done_at m + late)
+                  && beq body (a_body m) && Bool.eqb complete (a_complete m)
+                  && Bool.eqb req_whole (a_request_whole m) && (hits =? a_hits m) in
+      (* spec side from the chunks themselves, not from [deliver]: an upstream whose header is late gets
+         504 within the limit (counted from the end of the upload); one whose header is in time is served
+         normally = its status, every byte of its body, properly ended, from a request it received whole *)
+      let spec := if (0 <? limit) && (limit + early <=? x_delay x)
+                  then (st =? 504) && (head <=? x_upload x + limit + within_allowance limit)
+                  else if (limit <=? 0) || (x_delay x + early <=? limit)
+                       then (st =? x_status x) && beq body (concat (map snd (x_chunks x))) && complete && req_whole
+                       else true in
+      verdict same spec None true
   end.
